@@ -421,3 +421,7 @@ def check(case):
                 val, _ = integrate.quad(dens, m - 14 * sd, m + 14 * sd, points=[m], limit=200,
                                         epsabs=1e-10, epsrel=1e-10)
             case.close(val, 1.0, rtol=0, atol=1e-7, what='integral of density over y', kind='norm')
+
+
+RULE += (' Classes and clauses added in later rounds of the seeded-change protocol (DESIGN 9.4) are named in REQUIRED '
+         'and in seeded/HISTORY.json; the evidence counts every one of them under classes.')
